@@ -200,7 +200,7 @@ def match_known(known, pid, v, job):
 
 
 def write_replay(pid, profile, job, v, outcome):
-    d = os.path.join(VERIF, 'replays', pid)
+    d = os.path.join(os.environ.get('VERIF_REPLAY_DIR', os.path.join(VERIF, 'replays')), pid)
     os.makedirs(d, exist_ok=True)
     body = {'property': pid, 'harness': job['harness'], 'params': job['params'], 'label': job.get('label', ''),
             'ir_profile': profile, 'kind': v['kind'], 'id': v['id'], 'what': v['what'], 'inputs': v['inputs'],
@@ -268,7 +268,8 @@ def main():
 
         known = load_known()
         inconclusive = [r for r in results if r['status'] != 'complete']
-        vacuous = [r for r in results if r['status'] == 'complete' and not r['covers'] and not r['paths'].get('expected-panic')]
+        vacuous = [r for r in results if r['status'] == 'complete' and not r['covers'] and not r['paths'].get('expected-panic')
+                   and not r['violations']]
         # native validation of engine paths
         validated = 0
         disagreements = []
